@@ -6,7 +6,8 @@ package main
 //   pep508        s                      -> ("ok" name extras constraint environment) | ("err")
 //   canon_name    s                      -> name
 //   pep440_tables raw                    -> (valid-table sat-table)   (oracle values for the model)
-//   marker        (raw (extra...) ...)   -> ("ok" val tree) | ("err") | ("nondet" a b); 8 repetitions
+//   marker        (raw (extra...) vt st grid) -> ("ok" val (grid values) tree) | ("err") | ("nondet" a b); 8 repetitions;
+//                                           the tree is a diagnostic, the harness compares ok/val/grid values
 //   marker_edge   (raw (extra...))       -> ("edge" 0|1) | ("err") | ("grapherr")
 //   marker_multi  ((root...) ...)        -> one result per root, several guarded edges, one resolver
 
@@ -137,7 +138,7 @@ func dumpTree(n *pypires.VerifMarkerNode) sx.V {
 	return sx.L(sx.Int(9))
 }
 
-func markerOnce(raw string, extras map[string]bool) (out string) {
+func markerOnce(raw string, extras map[string]bool, grid []map[string]bool) (out string) {
 	defer func() {
 		if recover() != nil {
 			out = `("panic")`
@@ -152,7 +153,14 @@ func markerOnce(raw string, extras map[string]bool) (out string) {
 	if !ok2 || val2 != val {
 		return `("hookmismatch")`
 	}
-	return sx.L(sx.Sym("ok"), sx.Bool(val), dumpTree(tree)).String()
+	// observables: accepted, the value for the requested extras, the values over a grid of
+	// other extras sets; the parse tree comes last and is a diagnostic only
+	var gv []sx.V
+	for _, g := range grid {
+		_, v, _ := pypires.VerifParseEvalMarker(raw, g)
+		gv = append(gv, sx.Bool(v))
+	}
+	return sx.L(sx.Sym("ok"), sx.Bool(val), sx.L(gv...), dumpTree(tree)).String()
 }
 
 // markerRepeat: parseMarkerVar ranges over a Go map; Go randomises the order, so
@@ -162,9 +170,15 @@ const markerRepeat = 8
 func markerEval(arg sx.V) sx.V {
 	raw := arg.Nth(0).Str()
 	extras := extrasMap(arg.Nth(1))
-	first := markerOnce(raw, extras)
+	var grid []map[string]bool
+	if len(arg.List()) > 4 {
+		for _, g := range arg.Nth(4).List() {
+			grid = append(grid, extrasMap(g))
+		}
+	}
+	first := markerOnce(raw, extras, grid)
 	for i := 1; i < markerRepeat; i++ {
-		if again := markerOnce(raw, extras); again != first {
+		if again := markerOnce(raw, extras, grid); again != first {
 			return sx.L(sx.Sym("nondet"), rawSx(first), rawSx(again))
 		}
 	}
@@ -247,11 +261,17 @@ func pypiEnv(sx.V) sx.V {
 	return sx.L(out...)
 }
 
-// markerMulti: ((root...) ...), root = ((raw (extra...)) ...). One universe, ONE resolver:
-//   root<j> 1.0 -> mid<j>_<i>[extras_i] -> (marker_i) g<j>_<i>
-// The roots are resolved one after the other on the same resolver, so that anything the
-// resolver remembers about one marker (caches) can leak into another. Result per root:
-// ("err") | ("grapherr") | ("edges" b...), b = presence of the edge mid<j>_<i> -> g<j>_<i>.
+// markerMulti: ((root...) ...), root = (item...), item = (raw (extra...) shape (extra2...)).
+// One universe, ONE resolver; the roots are resolved one after the other on it, so that anything
+// the resolver remembers about one marker (caches) can leak into another. Shapes of an item i of root j:
+//   0  root -> mid[extras] -> (marker) g                    one requirer
+//   1  root -> (marker) g                                   the marker sits on a direct requirement of the root
+//   2  root -> a -> mid[extras], root -> b -> mid[extras2], mid -> (marker) g      two requirers, different extras
+//   3  root -> mid[extras] -> (marker) g[zz],  g -> (extra == "zz") h              the guarded requirement enables an extra
+//   4  root -> q, root -> mid[extras], mid -> (marker) g; q 2.0 -> mid[extras2], zmissing==9 (no such version, so q 2.0
+//      is rejected after its requirement on mid was looked at), q 1.0 -> nothing: extras2 are requested by nobody in the result
+// Result per root: ("err") | ("grapherr") | ("inconsistent") | ("edges" b...), b = presence of the guarded edge
+// (for shape 3 also: h hangs under g exactly when g is there).
 func markerMulti(arg sx.V) sx.V {
 	pk := func(name string) resolve.PackageKey { return resolve.PackageKey{System: resolve.PyPI, Name: name} }
 	conc := func(name string) resolve.Version {
@@ -263,32 +283,88 @@ func markerMulti(arg sx.V) sx.V {
 			Type:       t,
 		}
 	}
+	strs := func(v sx.V) []string {
+		var out []string
+		for _, e := range v.List() {
+			out = append(out, e.Str())
+		}
+		return out
+	}
+	withExtras := func(ex []string) dep.Type {
+		var t dep.Type
+		if len(ex) > 0 {
+			t.AddAttr(dep.EnabledDependencies, strings.Join(ex, ","))
+		}
+		return t
+	}
+	type edge struct{ from, to, also string }
 	roots := arg.Nth(0).List()
 	lc := resolve.NewLocalClient()
+	guards := make([][]edge, len(roots))
 	for j, root := range roots {
+		rootName := "root" + strconv.Itoa(j)
 		var rootReqs []resolve.RequirementVersion
 		for i, item := range root.List() {
 			raw := item.Nth(0).Str()
-			var extras []string
-			for _, e := range item.Nth(1).List() {
-				extras = append(extras, e.Str())
+			extras := strs(item.Nth(1))
+			shape := 0
+			var extras2 []string
+			if len(item.List()) > 2 {
+				shape = int(item.Nth(2).Int())
+				extras2 = strs(item.Nth(3))
 			}
-			mid := "mid" + strconv.Itoa(j) + "x" + strconv.Itoa(i)
-			g := "g" + strconv.Itoa(j) + "x" + strconv.Itoa(i)
-			var midType, guardType dep.Type
-			if len(extras) > 0 {
-				midType.AddAttr(dep.EnabledDependencies, strings.Join(extras, ","))
-			}
+			sfx := strconv.Itoa(j) + "x" + strconv.Itoa(i)
+			mid, g := "mid"+sfx, "g"+sfx
+			var guardType dep.Type
 			guardType.AddAttr(dep.Environment, raw)
-			lc.AddVersion(conc(g), nil)
-			lc.AddVersion(conc(mid), []resolve.RequirementVersion{req(g, guardType)})
-			rootReqs = append(rootReqs, req(mid, midType))
+			switch shape {
+			case 1:
+				lc.AddVersion(conc(g), nil)
+				rootReqs = append(rootReqs, req(g, guardType))
+				guards[j] = append(guards[j], edge{rootName, g, ""})
+			case 2:
+				a, b := "a"+sfx, "b"+sfx
+				lc.AddVersion(conc(g), nil)
+				lc.AddVersion(conc(mid), []resolve.RequirementVersion{req(g, guardType)})
+				lc.AddVersion(conc(a), []resolve.RequirementVersion{req(mid, withExtras(extras))})
+				lc.AddVersion(conc(b), []resolve.RequirementVersion{req(mid, withExtras(extras2))})
+				rootReqs = append(rootReqs, req(a, dep.Type{}), req(b, dep.Type{}))
+				guards[j] = append(guards[j], edge{mid, g, ""})
+			case 3:
+				h := "h" + sfx
+				var hType dep.Type
+				hType.AddAttr(dep.Environment, `extra == "zz"`)
+				guardType.AddAttr(dep.EnabledDependencies, "zz")
+				lc.AddVersion(conc(h), nil)
+				lc.AddVersion(conc(g), []resolve.RequirementVersion{req(h, hType)})
+				lc.AddVersion(conc(mid), []resolve.RequirementVersion{req(g, guardType)})
+				rootReqs = append(rootReqs, req(mid, withExtras(extras)))
+				guards[j] = append(guards[j], edge{mid, g, h})
+			case 4:
+				q, zm := "a"+sfx+"q", "zmissing"+sfx
+				q2 := conc(q)
+				q2.Version = "2.0"
+				zreq := req(zm, dep.Type{})
+				zreq.Version = "==9"
+				lc.AddVersion(conc(zm), nil)
+				lc.AddVersion(conc(g), nil)
+				lc.AddVersion(conc(mid), []resolve.RequirementVersion{req(g, guardType)})
+				lc.AddVersion(conc(q), nil)
+				lc.AddVersion(q2, []resolve.RequirementVersion{req(mid, withExtras(extras2)), zreq})
+				rootReqs = append(rootReqs, req(q, dep.Type{}), req(mid, withExtras(extras)))
+				guards[j] = append(guards[j], edge{mid, g, ""})
+			default:
+				lc.AddVersion(conc(g), nil)
+				lc.AddVersion(conc(mid), []resolve.RequirementVersion{req(g, guardType)})
+				rootReqs = append(rootReqs, req(mid, withExtras(extras)))
+				guards[j] = append(guards[j], edge{mid, g, ""})
+			}
 		}
-		lc.AddVersion(conc("root"+strconv.Itoa(j)), rootReqs)
+		lc.AddVersion(conc(rootName), rootReqs)
 	}
 	r := pypires.NewResolver(lc)
 	var out []sx.V
-	for j, root := range roots {
+	for j := range roots {
 		g, err := r.Resolve(context.Background(), conc("root"+strconv.Itoa(j)).VersionKey)
 		if err != nil {
 			out = append(out, sx.L(sx.Sym("err")))
@@ -302,23 +378,36 @@ func markerMulti(arg sx.V) sx.V {
 		for k, n := range g.Nodes {
 			id[n.Version.Name] = k
 		}
-		has := map[[2]int]bool{}
-		for _, e := range g.Edges {
-			has[[2]int{int(e.From), int(e.To)}] = true
+		has := func(from, to string) (present, nodeThere bool) {
+			f, okf := id[from]
+			t, okt := id[to]
+			if !okf || !okt {
+				return false, okt
+			}
+			for _, e := range g.Edges {
+				if int(e.From) == f && int(e.To) == t {
+					return true, true
+				}
+			}
+			return false, true
 		}
 		res := []sx.V{sx.Sym("edges")}
 		bad := false
-		for i := range root.List() {
-			m, okm := id["mid"+strconv.Itoa(j)+"x"+strconv.Itoa(i)]
-			gi, okg := id["g"+strconv.Itoa(j)+"x"+strconv.Itoa(i)]
-			if !okm {
+		for _, e := range guards[j] {
+			if _, ok := id[e.from]; !ok {
 				bad = true
 				break
 			}
-			present := okg && has[[2]int{m, gi}]
-			if present != okg {
-				bad = true
+			present, there := has(e.from, e.to)
+			if present != there {
+				bad = true // the guarded package without its guarded edge, or the reverse
 				break
+			}
+			if e.also != "" {
+				if hp, _ := has(e.to, e.also); hp != present {
+					bad = true // g[zz] was followed but its extra-guarded dependency was not (or the reverse)
+					break
+				}
 			}
 			res = append(res, sx.Bool(present))
 		}
